@@ -86,6 +86,9 @@ NAMED = {
     "mixed": [("n1", "p1", "n2"), ("n2", "p2", "n3"), ("n3", "p1", "n1"), ("n1", "p2", "n1")],
     "chain4": [("n1", "p1", "n2"), ("n2", "p1", "n3"), ("n3", "p1", "n4"), ("n4", "p2", "n1")],
     "two_comp": [("n1", "p1", "n2"), ("n3", "p1", "n4"), ("n4", "p1", "n3")],
+    # n3 only ever an object: with the "lit" / "falsy" vocabularies it is a literal, reached in the middle of sequences
+    "leaf3": [("n1", "p1", "n3"), ("n1", "p2", "n2"), ("n2", "p1", "n3"), ("n2", "p2", "n1")],
+    "leaf3b": [("n1", "p1", "n2"), ("n2", "p1", "n3"), ("n1", "p2", "n3"), ("n2", "p2", "n2")],
 }
 
 
@@ -113,9 +116,15 @@ def run(out, tier, seed):
     sel = paths2 if not quick else rng.sample(paths2, 250)
     for i, p in enumerate(sel):
         for gi, (name, g) in enumerate(NAMED.items()):
-            if quick and (i + gi) % 3:
+            if quick and (i + gi) % 3 and not name.startswith("leaf"):
                 continue
-            jobs.append(make_job(p, g, i + gi, "plain", ends=[ENDS[(i + gi + k) % len(ENDS)] for k in range(4)] if quick else None))
+            jobs.append(make_job(p, g, i + gi, ["plain", "lit", "falsy"][(i + gi) % 3] if name.startswith("leaf") else "plain",
+                                 ends=[ENDS[(i + gi + k) % len(ENDS)] for k in range(4)] if quick else None))
+    # sequences / alternatives over data that is spread across the members of a ReadOnlyGraphAggregate
+    for i, p in enumerate([q for q in paths2 if q["op"] in ("seq", "alt", "plus", "star")][:: (7 if quick else 1)]):
+        for gi, (name, g) in enumerate(NAMED.items()):
+            if (i + gi) % (4 if quick else 1) == 0:
+                jobs.append(make_job(p, g, i + gi, "plain", vias=["aggregate"], ends=[([], []), (["n1"], []), ([], ["n3"]), (["n1"], ["n3"])]))
     # every directly nested pair of modifiers (p?)+, (p*)?, ^(p+)* ... through every route, on every named family
     mods = ["star", "plus", "opt"]
     for m1 in mods:
